@@ -20,6 +20,15 @@ facts of `Cfg`, probed on every run.  The scenario object's own fields (`constan
 distinct dictionary object per scenario).
 
 Cell 0 is the base model (the model object the managers were registered from).
+
+Wave 2 — dictionary identity of the scenario-level settings.  A manager's `base_constants` / `base_points`
+dictionaries live in the manager entry (`mgrs m`), which is also their identity.  `add_scenarios` merges them into
+the scenario dictionary; when the scenario dictionary has no own `constants` (`points`) key the code creates a new
+dictionary and fills it (`Cfg.mergeOwnsDict = true`), or — the defective mechanism, `setdefault(key, base)` — hands
+the scenario the base dictionary object itself: `Scn.cShared` / `Scn.pShared`.  Every read of the scenario-level
+settings (`scnConsts`, `scnPts`) and every in-place write (`configureScn`) goes through that identity, so that under
+sharing a `configure` of one scenario is seen by its siblings, by the manager and by every scenario registered
+later (whose merge reads the manager entry).
 -/
 namespace Bptk.C06
 
@@ -80,6 +89,11 @@ structure Cfg where
   cloneOwnsPoints : Bool
   /-- same question for `Element._elements` (false on the pinned tree; no scenario operation writes it). -/
   cloneOwnsElements : Bool
+  /-- `add_scenarios` merging the manager's `base_constants` / `base_points` into a scenario dictionary that
+  has no own `constants` / `points` key: a NEW dictionary is created and filled (true; the pinned tree), or the
+  scenario receives the manager's base dictionary object itself (false: `setdefault(key, base)`), which then is
+  one object for the manager and all such scenarios. -/
+  mergeOwnsDict : Bool
 deriving DecidableEq, Repr
 
 /-- The base model as built by the user. -/
@@ -99,6 +113,8 @@ structure Scn where
   ref : Nat             -- cell of clone.equations and clone.memo
   ptsRef : Nat          -- cell of clone.points
   elRef : Nat           -- cell of the clone's elements' `_elements`
+  cShared : Bool        -- `SimulationScenario.constants` IS the `base_constants` dictionary of manager `mgr`
+  pShared : Bool        -- `SimulationScenario.points` IS the `base_points` dictionary of manager `mgr`
 deriving DecidableEq, Repr
 
 structure State where
@@ -134,12 +150,33 @@ def effOf (st : State) (s : Scn) : Eff :=
 def baseEff (b : Base) (st : State) : Eff :=
   { eqs := st.he 0, pts := st.hp 0, rs := b.rs, elems := st.hel 0 }
 
+/-- Dictionary identity of the scenario-level settings: the object `SimulationScenario.constants` is either the
+scenario's own dictionary (inline in `Scn`) or — `cShared` — the `base_constants` dictionary of its manager, which
+is stored in (and identified by) the manager entry.  Reads and writes go through that identity. -/
+def mgrConsts (st : State) (m : Nat) : Store := match st.mgrs m with | some p => p.1 | none => []
+def mgrPts (st : State) (m : Nat) : Store := match st.mgrs m with | some p => p.2 | none => []
+def scnConsts (st : State) (s : Scn) : Store := if s.cShared then mgrConsts st s.mgr else s.consts
+def scnPts (st : State) (s : Scn) : Store := if s.pShared then mgrPts st s.mgr else s.pts
+
 /-- `SdRunner`: apply the scenario's settings to its model: `change_equation` for every constant,
 `change_points` for every points entry, `change_runspecs`. -/
 def applyScn (st : State) (s : Scn) : State × Scn :=
-  ({ st with he := updFn st.he s.ref (Store.update (st.he s.ref) s.consts)
-             hp := updFn st.hp s.ptsRef (Store.update (st.hp s.ptsRef) s.pts) },
+  ({ st with he := updFn st.he s.ref (Store.update (st.he s.ref) (scnConsts st s))
+             hp := updFn st.hp s.ptsRef (Store.update (st.hp s.ptsRef) (scnPts st s)) },
    { s with mrs := s.rs })
+
+/-- `SimulationScenario.configure_settings`: `self.constants[k] = v`, `self.points[k] = v` IN PLACE on whichever
+dictionary object the scenario holds, run specs on the scenario object. -/
+def configureScn (st : State) (i : Nat) (s : Scn) (d : Dict) : State :=
+  let s1 := { s with consts := if s.cShared then s.consts else Store.update s.consts d.consts,
+                     pts := if s.pShared then s.pts else Store.update s.pts d.pts,
+                     rs := s.rs.override d }
+  if s.cShared || s.pShared then
+    { st with scns := updFn st.scns i (some s1)
+              mgrs := updFn st.mgrs s.mgr ((st.mgrs s.mgr).map fun p =>
+                        (if s.cShared then Store.update p.1 d.consts else p.1,
+                         if s.pShared then Store.update p.2 d.pts else p.2)) }
+  else { st with scns := updFn st.scns i (some s1) }
 
 /-- evaluate: the memo cell receives a generation computed under the effective settings -/
 def simulate (st : State) (s : Scn) (t : Option Nat) : State :=
@@ -163,8 +200,11 @@ def step (c : Cfg) (b : Base) (st : State) : Op → State
           -- SimulationScenario.__init__: model.points = {**model.points, **points}: always a new table
           let pr' := if pts.isEmpty then pr else r
           let tbl := if pts.isEmpty then st.hp 0 else Store.update (st.hp 0) pts
+          -- the merge of the base values: own dictionary, or (defective) the manager's base dictionary itself
+          let shC := !c.mergeOwnsDict && d.consts.isEmpty && !bc.isEmpty
+          let shP := !c.mergeOwnsDict && d.pts.isEmpty && !bp.isEmpty
           let s : Scn := { mgr := m, consts := consts, pts := pts, rs := b.rs.override d, mrs := b.rs,
-                           live := false, ref := r, ptsRef := pr', elRef := er }
+                           live := false, ref := r, ptsRef := pr', elRef := er, cShared := shC, pShared := shP }
           { st with scns := updFn st.scns i (some s)
                     he := updFn st.he r []
                     hm := updFn st.hm r []
@@ -181,10 +221,7 @@ def step (c : Cfg) (b : Base) (st : State) : Op → State
   | .configure i d =>
       match st.scns i with
       | none => st
-      | some s =>
-          let s1 := { s with consts := Store.update s.consts d.consts, pts := Store.update s.pts d.pts,
-                             rs := s.rs.override d }
-          { st with scns := updFn st.scns i (some s1) }
+      | some s => configureScn st i s d
   | .reset i =>
       match st.scns i with
       | none => st
@@ -273,7 +310,7 @@ def soloExec (b : Base) (i : Nat) (ops : List Op) : SoloSt :=
 
 /-- dereference scenario slot `i` of the shared machine -/
 def deref (st : State) (s : Scn) : Solo :=
-  { mgr := s.mgr, consts := s.consts, pts := s.pts, rs := s.rs, mrs := s.mrs, live := s.live,
+  { mgr := s.mgr, consts := scnConsts st s, pts := scnPts st s, rs := s.rs, mrs := s.mrs, live := s.live,
     meqs := st.he s.ref, mpts := st.hp s.ptsRef, memo := st.hm s.ref, elems := st.hel s.elRef }
 
 def view (st : State) (i : Nat) : Option Solo := (st.scns i).map (deref st)
